@@ -507,6 +507,17 @@ func (r *Runner) doRestart(op *Op) {
 			}
 		}
 		r.FS.Mark(-5)
+		if r.C.Prop == "C13" {
+			// what the dead process left unflushed is not the new process's to answer for: the policy counts what a
+			// process appends itself (the lenient reading; nothing obliges Open to flush a recovered log)
+			r.scanJournal()
+			for _, f := range r.FS.Live.Inodes {
+				f.Unsynced = nil
+			}
+			if st, _ := r.extra["sync"].(*syncTrack); st != nil {
+				st.unsynced = map[int]int{}
+			}
+		}
 		r.FS.CloseAll()
 		r.DB = nil
 		vsync.ResetPools()
